@@ -1576,8 +1576,22 @@ class Canon(object):
             if st is None or cnt[name] != 1 or name in self.KNOWN_GLOBALS or not isinstance(st.value, ast.Constant):
                 v = st.value if st is not None else None
                 # chr(29) and the like: a call of a pure builtin on literals
-                if not (st is not None and cnt[name] == 1 and name not in self.KNOWN_GLOBALS and isinstance(v, ast.Call) and isinstance(v.func, ast.Name)
-                        and v.func.id in ('chr', 'ord', 'int', 'float', 'str') and v.args and all(isinstance(a, ast.Constant) for a in v.args) and not v.keywords):
+                def flagexpr(e):
+                    # re.IGNORECASE | re.DOTALL, errno.EIO, select.POLLIN | select.POLLPRI: operators over upper-case constants of standard modules and literals
+                    if isinstance(e, ast.Constant):
+                        return True
+                    if isinstance(e, ast.Attribute) and isinstance(e.value, ast.Name) and e.value.id in ('re', 'select', 'signal', 'errno', 'socket', 'termios', 'tty', 'stat', 'os') \
+                            and e.attr.isupper() and e.value.id not in cnt:
+                        return True
+                    if isinstance(e, ast.BinOp) and isinstance(e.op, (ast.BitOr, ast.BitAnd, ast.BitXor, ast.Add, ast.Sub)):
+                        return flagexpr(e.left) and flagexpr(e.right)
+                    if isinstance(e, ast.UnaryOp) and isinstance(e.op, (ast.Invert, ast.USub)):
+                        return flagexpr(e.operand)
+                    return False
+                if st is not None and cnt[name] == 1 and name not in self.KNOWN_GLOBALS and isinstance(v, (ast.BinOp, ast.UnaryOp, ast.Attribute)) and flagexpr(v):
+                    pass
+                elif not (st is not None and cnt[name] == 1 and name not in self.KNOWN_GLOBALS and isinstance(v, ast.Call) and isinstance(v.func, ast.Name)
+                          and v.func.id in ('chr', 'ord', 'int', 'float', 'str') and v.args and all(isinstance(a, ast.Constant) for a in v.args) and not v.keywords):
                     continue
             if any((isinstance(n, ast.Name) and n.id == name and isinstance(n.ctx, (ast.Store, ast.Del)) and n is not st.targets[0]) or
                    (isinstance(n, ast.Global) and name in n.names) or
